@@ -22,7 +22,8 @@ func init() {
 			"(R3) the stream watcher cancels the stream on the ctx/term branches before waiting for the finished token, and terminates the manager whenever the stream was not finished (hard mode) or the soft cancel failed/was busy; " +
 			"(R4) Manager.terminate closes the transport and the stream buffer in its first-set-wins branch; Stream.Cancel sets cancel, send=EOF and terminates unless finished; " +
 			"(R5) every error that originates from the shared writer and is returned by a Stream method passes through checkCancelError; " +
-			"(R6) every blocking select in drpcmanager has a term or ctx.Done case, and every bare blocking operation there is one of the reviewed, paired ones.",
+			"(R6) every blocking select in drpcmanager has a term or ctx.Done case, and every bare blocking operation there is one of the reviewed, paired ones; " +
+				"(R7) in drpcconn no mutex is held at a call of Manager.NewClientStream: a second call that has to wait for the stream slot waits in acquireSemaphore's select (which has the ctx.Done case), not in sync.Mutex.Lock behind the first call.",
 		NotDecided: "that every blocked call actually returns for every in-flight set of operations; peer-side cancellation; usability of the connection afterwards; the soft-cancel busy race (try-lock failing for a non-blocking holder) noted in DESIGN.md.",
 		Assumptions: []string{
 			"packetBuffer.Close's wait for a held buffer is bounded by one enc.Unmarshal call of the application",
@@ -37,6 +38,7 @@ func init() {
 			{ID: "C04.R4", Doc: "Manager.terminate closes transport and stream buffer in the first-wins branch; Stream.Cancel sets cancel, send=EOF, terminates unless finished", Run: c04r4},
 			{ID: "C04.R5", Doc: "write errors returned by Stream methods pass through checkCancelError (blocked sends report the context's error)", Run: c04r5},
 			{ID: "C04.R6", Doc: "every blocking select in drpcmanager has a term/ctx.Done case; bare blocking operations are the reviewed, paired set", Run: c04r6},
+			{ID: "C04.R7", Doc: "a client call waits for the connection's stream slot holding no mutex of the Conn (the wait in NewClientStream is the one a cancelled context can leave)", Run: c04r7},
 			{ID: "C04.S1", Doc: "the lent receive buffer is always handed back (packetBuffer.Close waits for it while Stream.Cancel holds Stream.mu)", Alias: "C01.R3"},
 			{ID: "C04.S2", Doc: "packet-buffer wake-ups: a cancelled receiver parked in Get is woken by Close", Alias: "C01.R4"},
 			{ID: "C04.S3", Doc: "cancel sets the state signals under Stream.mu", Alias: "C03.R1"},
@@ -799,4 +801,25 @@ func c04w2(c *an.Ctx) {
 				p.FieldName(b), p.FieldName(a), an.ShortFunc(other.In), p.FieldName(a), p.FieldName(back[len(back)-2]), c.At(other.Site), p.FieldName(a), strings.Join(names, " -> ")))
 		}
 	}
+}
+
+func c04r7(c *an.Ctx) {
+	a := A(c)
+	ncs := a.obj("drpcmanager", "(*Manager).NewClientStream")
+	pl := locksOf(c, "drpcconn")
+	n := 0
+	for _, fn := range must(c.P.SourceFuncs("drpcconn")) {
+		lf := pl.Flow(fn)
+		for _, cs := range an.CallsTo(fn, false, ncs) {
+			n++
+			c.Analysed(fn)
+			held := []string{}
+			if lf != nil {
+				held = lf.May(cs.Instr)
+			}
+			c.Check(len(held) == 0, an.ShortFunc(fn)+" | no lock held while waiting for the stream slot", c.At(cs.Instr), "",
+				fmt.Sprintf("NewClientStream is called with %v held: a concurrent call queues on that mutex instead of in the context-aware wait for the stream slot, so cancelling its context does not unblock it", held))
+		}
+	}
+	c.Floor("NewClientStream calls in drpcconn", 1, n)
 }
